@@ -34,19 +34,21 @@ class PathLimit(Exception):
 
 
 class St:
-    __slots__ = ('heaps', 'alloc', 'pc', 'ex')
+    __slots__ = ('heaps', 'alloc', 'pc', 'ex', 'gen')
 
     def __init__(self, ex):
         self.ex = ex
         self.heaps = {}
         self.alloc = None
         self.pc = []
+        self.gen = 0
 
     def fork(self):
         s = St(self.ex)
         s.heaps = dict(self.heaps)
         s.alloc = self.alloc
         s.pc = list(self.pc)
+        s.gen = self.gen
         return s
 
     def assume(self, t):
@@ -57,13 +59,13 @@ class St:
     def heap(self, name):
         h = self.heaps.get(name)
         if h is None:
-            h = self.ex.base_heap(name)
+            h = self.ex.base_heap(name, self.gen)
             self.heaps[name] = h
         return h
 
 
 class Frame:
-    __slots__ = ('fn', 'regs', 'params', 'fvs', 'depth', 'contract', 'entry', 'results', 'top', 'loopstack', 'site_counters')
+    __slots__ = ('fn', 'regs', 'params', 'fvs', 'depth', 'contract', 'entry', 'results', 'top', 'loopstack', 'site_counters', 'unroll')
 
     def __init__(self, fn):
         self.fn = fn
@@ -75,6 +77,7 @@ class Frame:
         self.entry = None
         self.top = False
         self.loopstack = ()
+        self.unroll = ()
 
     def copy(self):
         f = Frame(self.fn)
@@ -86,6 +89,7 @@ class Frame:
         f.entry = self.entry
         f.top = self.top
         f.loopstack = self.loopstack
+        f.unroll = self.unroll
         return f
 
 
@@ -123,12 +127,30 @@ class Executor:
         self.prune_solver = z3.Solver()
         self.prune_solver.set('timeout', 300)
         self.prune_depth = 0
+        self.unfold_done = set()
+        self.fresh_ids = set()
+        self.fresh_keep = []
+        self.code_ids = {}
+        self.gen_counter = 0
+        self.uses_psum = False
+        self.events = []
+        self.inline_stack = []
+        self.closure_cells = {}
 
     # ------------------------------------------------------------------ heaps
-    def base_heap(self, name):
-        if name not in self._base:
-            self._base[name] = z3.Const(name + '@0', self.m.heap_sort(name))
-        return self._base[name]
+    def base_heap(self, name, gen=0):
+        key = name if gen == 0 else (name, gen)
+        if key not in self._base:
+            self._base[key] = z3.Const('%s@%s' % (name, gen), self.m.heap_sort(name))
+        return self._base[key]
+
+    def havoc_everything(self, st, tag):
+        """conservative: an imprecise write set; every heap known so far and every heap touched later is fresh"""
+        self.gen_counter += 1
+        st.gen = self.gen_counter
+        for name in list(st.heaps.keys()):
+            st.heaps[name] = self.m.fresh(name.replace('|', '_')[:50] + '_' + tag, self.m.heap_sort(name))
+        self.notes.append('conservative havoc of all heaps at %s (imprecise write set)' % tag)
 
     def hname(self, T, path, sort):
         return 'H|%s|%s|%s' % (self.m.canon(T), path, sort)
@@ -184,6 +206,8 @@ class Executor:
     def alloc_ref(self, st):
         r = st.alloc
         st.alloc = st.alloc + 1
+        self.fresh_ids.add(r.get_id())
+        self.fresh_keep.append(r)
         return r
 
     def ptr_of(self, v):
@@ -266,6 +290,8 @@ class Executor:
             return
         if name in self.fresh_only_ok:
             pass
+        if ref.get_id() in self.fresh_ids:
+            return
         alts = [ref >= self.entry_alloc]
         for (n, r) in self.modset:
             if n == name or n == '*':
@@ -339,7 +365,7 @@ class Executor:
             ref = self.global_ref(gname)
             return Val(op['t'], [ref], ptr=Ptr('obj', T, '', ref))
         if k == 'func':
-            return Val(op['t'], [z3.IntVal(0)], py=('func', op['n']))
+            return Val(op['t'], [z3.IntVal(self.func_id(op['n']))], py=('func', op['n']))
         if k == 'builtin':
             return Val(op['t'], [z3.IntVal(0)], py=('builtin', op['n']))
         raise Unsupported('operand kind ' + k)
@@ -390,7 +416,7 @@ class Executor:
         self.entry_state = entry
         if contract is not None:
             self.frame_props = tuple(sorted(contract.props))
-            env = self.spec.env_for(frame, entry, entry, None)
+            env = self.spec.env_for(frame, st, st, None)
             for c in contract.lets:
                 env.vars[c.label] = self.spec.eval(c.ast, env)
             self.top_lets = dict(env.vars)
@@ -447,8 +473,16 @@ class Executor:
                 # loop header?
                 loops = fn.loops()
                 if b in loops and self.cut_loops:
-                    if self.enter_loop(frame, b, prev, st, k):
-                        return
+                    mode = self.loop_mode(frame, b, prev, st)
+                    if mode == 'cut':
+                        if self.enter_loop(frame, b, prev, st, k):
+                            return
+                    else:
+                        cnt = dict(frame.unroll)
+                        cnt[b] = cnt.get(b, 0) + 1
+                        if cnt[b] > 12:
+                            raise Unsupported('loop %d of %s: unrolling bound exceeded, needs an invariant' % (loops[b]['ord'], fn.name))
+                        frame.unroll = tuple(cnt.items())
                 # phis: evaluate simultaneously
                 newregs = {}
                 for ins in instrs:
@@ -519,6 +553,34 @@ class Executor:
     # ------------------------------------------------------------------ loops
     cut_loops = True
 
+    def loop_mode(self, frame, h, prev, st):
+        """'cut' (invariant) or 'unroll' (no invariant given and the trip count is concrete)"""
+        fn = frame.fn
+        L = fn.loops()[h]
+        c = self.contract_of(fn)
+        if c is not None and L['ord'] in c.loops:
+            return 'cut'
+        if dict(frame.loopstack).get(h) is not None:
+            return 'cut'
+        if dict(frame.unroll).get(h):
+            return 'unroll'
+        # first arrival: is the loop condition decided by concrete values?
+        blk = fn.blocks[h]
+        last = blk['instrs'][-1]
+        if last['op'] != 'If':
+            return 'cut'
+        # range loop over a slice: header is `t = phi; t+1 < len`; concrete iff len is a literal
+        for ins in blk['instrs']:
+            if ins['op'] == 'BinOp' and ins['tok'] in ('<', '<=', '>', '>=', '!=') and last['args'][0].get('n') == ins.get('reg'):
+                for a in ins['args']:
+                    if a['k'] == 'reg' and a['n'] in frame.regs:
+                        v = z3.simplify(frame.regs[a['n']].leaves[0])
+                        if z3.is_int_value(v) and 0 <= v.as_long() <= 8:
+                            return 'unroll'
+                    if a['k'] == 'const':
+                        continue
+        return 'cut'
+
     def enter_loop(self, frame, h, prev, st, k):
         """returns True if the path was consumed (back edge or loop handled)."""
         fn = frame.fn
@@ -559,7 +621,11 @@ class Executor:
         W = self.loop_writes(fn, L)
         st = st.fork()
         pre_heaps = dict(st.heaps)
+        if any(n.startswith('?') for n in W):
+            self.havoc_everything(st, '%s.loop%d' % (fn.short, L['ord']))
         for name in sorted(W):
+            if name.startswith('?'):
+                continue
             self.havoc_heap(st, name, 'loop%d' % L['ord'], self.entry_alloc, self.modset)
         if any(n.startswith('ALLOC') for n in W) or True:
             na = self.m.fresh('alloc_l%d' % L['ord'], self.m.Int)
@@ -619,11 +685,13 @@ class Executor:
         return env
 
     def havoc_heap(self, st, name, tag, entry_alloc, modset):
+        """the heap after an unknown number of writes that respect the frame `modset`:
+        objects that existed before `entry_alloc` and are not in modset keep their contents.
+        Expressed as a lambda overlay, so reads at known old refs reduce syntactically."""
         old = st.heap(name)
         new = self.m.fresh(name.replace('|', '_')[:60] + '_' + tag, old.sort())
-        # frame: objects that existed at function entry and are not in the modifies clause are unchanged
         if modset is not None:
-            r = z3.Const('r!frame', self.m.Int)
+            r = z3.Int('r!frame')
             conds = [r < entry_alloc]
             wild = False
             for (n, ref) in modset:
@@ -633,8 +701,8 @@ class Executor:
                     else:
                         conds.append(r != ref)
             if not wild:
-                st.assume(z3.ForAll([r], z3.Implies(z3.And(*conds), z3.Select(new, r) == z3.Select(old, r)),
-                                    patterns=[z3.Select(new, r)]))
+                cond = z3.And(*conds) if len(conds) > 1 else conds[0]
+                new = z3.Lambda([r], z3.If(cond, z3.Select(old, r), z3.Select(new, r)))
         st.heaps[name] = new
 
     # ---- syntactic may-write analysis ------------------------------------------------
@@ -671,8 +739,48 @@ class Executor:
             cur = self.m.types[self.m.under(cur)]['fields'][idx]['t']
         return cur
 
+    def field_locations(self, U):
+        """all (struct type, path) whose leaf type has the same canonical type as U: the places an
+        interior pointer *U may point into"""
+        if self._fieldloc is None:
+            self._fieldloc = {}
+            for k, t in self.m.types.items():
+                if t['kind'] != 'named' or self.m.kind(k) != 'struct':
+                    continue
+                if self.m.is_bigint(k) or self.m.is_bigrat(k):
+                    continue
+                pk = t.get('pkg', '')
+                if not pk.startswith(self.prog.module) or '/antlr' in pk:
+                    continue
+                self._walk_fields(k, k, '', 0)
+        return self._fieldloc.get(self.m.canon(U), [])
+
+    def _walk_fields(self, root, T, prefix, depth):
+        if depth > 4:
+            return
+        for f in self.m.types[self.m.under(T)].get('fields') or []:
+            ft = f['t']
+            path = prefix + f['n'] + '.'
+            self._fieldloc.setdefault(self.m.canon(ft), []).append((root, path))
+            if self.m.kind(ft) == 'struct' and not self.m.is_bigint(ft) and not self.m.is_bigrat(ft):
+                self._walk_fields(root, ft, path, depth + 1)
+
+    _fieldloc = None
+
+    def pointee_heaps(self, U, interior):
+        """heaps a write through a *U may touch: a whole object, a slice element, or (interior) a field"""
+        lay = self.m.layout(U)
+        out = {self.hname(U, p, s) for (p, s, tk) in lay}
+        out |= {self.aname(U, p, s) for (p, s, tk) in lay}
+        if interior:
+            for (T, path) in self.field_locations(U):
+                for (p, s, tk) in lay:
+                    out.add(self.hname(T, self.leafpath(path, p), s))
+                    out.add(self.aname(T, self.leafpath(path, p), s))
+        return out
+
     def addr_heaps(self, fn, op, depth=0):
-        """heap names a store through address operand `op` may touch (static approximation)"""
+        """heap names a write through address operand `op` may touch (static over-approximation)"""
         t = op['t']
         U = self.m.elem(t)
         if op['k'] == 'reg' and depth < 6:
@@ -680,9 +788,8 @@ class Executor:
             if d is not None:
                 ins = d[2]
                 if ins['op'] == 'FieldAddr':
-                    base = ins['args'][0]
                     chain = [ins['fname']]
-                    cur = base
+                    cur = ins['args'][0]
                     while cur['k'] == 'reg' and fn.defs().get(cur['n']) and fn.defs()[cur['n']][2]['op'] == 'FieldAddr':
                         ii = fn.defs()[cur['n']][2]
                         chain.append(ii['fname'])
@@ -690,29 +797,53 @@ class Executor:
                     chain.reverse()
                     T = self.m.elem(cur['t'])
                     prefix = '.'.join(chain) + '.'
-                    out = {self.hname(T, self.leafpath(prefix, p), s) for (p, s, tk) in self.m.layout(U)}
-                    # the base may itself be an element pointer
-                    if cur['k'] == 'reg' and fn.defs().get(cur['n']) and fn.defs()[cur['n']][2]['op'] == 'IndexAddr':
-                        out |= {self.aname(T, self.leafpath(prefix, p), s) for (p, s, tk) in self.m.layout(U)}
-                    else:
-                        out |= {self.aname(T, self.leafpath(prefix, p), s) for (p, s, tk) in self.m.layout(U)}
+                    lay = self.m.layout(U)
+                    out = {self.hname(T, self.leafpath(prefix, p), s) for (p, s, tk) in lay}
+                    out |= {self.aname(T, self.leafpath(prefix, p), s) for (p, s, tk) in lay}
+                    # the base itself may be an interior pointer (param of an inlined function)
+                    if cur['k'] in ('param', 'fv'):
+                        for (T2, path2) in self.field_locations(T):
+                            for (p, s, tk) in lay:
+                                out.add(self.hname(T2, self.leafpath(path2 + prefix, p), s))
+                                out.add(self.aname(T2, self.leafpath(path2 + prefix, p), s))
                     return out
                 if ins['op'] == 'IndexAddr':
                     return {self.aname(U, p, s) for (p, s, tk) in self.m.layout(U)}
+                if ins['op'] == 'Alloc':
+                    return {self.hname(U, p, s) for (p, s, tk) in self.m.layout(U)}
                 if ins['op'] in ('ChangeType', 'Convert'):
-                    return self.addr_heaps(fn, ins['args'][0], depth + 1) | {self.hname(U, p, s) for (p, s, tk) in self.m.layout(U)}
+                    return self.addr_heaps(fn, ins['args'][0], depth + 1)
                 if ins['op'] == 'Phi':
                     out = set()
                     for a in ins['args']:
                         if a['k'] != 'reg' or a['n'] != op['n']:
                             out |= self.addr_heaps(fn, a, depth + 1)
                     return out
-        # whole object of type U (or an element of a slice of U, or a field: over-approximate by all three views)
-        out = {self.hname(U, p, s) for (p, s, tk) in self.m.layout(U)}
-        out |= {self.aname(U, p, s) for (p, s, tk) in self.m.layout(U)}
-        if op['k'] in ('param', 'fv') or depth >= 6 or op['k'] == 'reg':
-            out.add('?' + self.m.canon(U))
-        return out
+                # loaded from memory / returned by a call: a thin pointer = whole object
+                return self.pointee_heaps(U, False)
+        if op['k'] == 'global':
+            return {self.hname(U, p, s) for (p, s, tk) in self.m.layout(U)}
+        return self.pointee_heaps(U, op['k'] in ('param', 'fv'))
+
+    def address_taken(self):
+        """functions whose value is taken somewhere in the module, by signature type"""
+        if self._addrtaken is None:
+            tab = {}
+            for f in self.prog.funcs.values():
+                for blk in f.blocks:
+                    for ins in blk['instrs']:
+                        if ins['op'] == 'MakeClosure':
+                            tab.setdefault(ins['t'], set()).add(ins['callee'])
+                        ops = list(ins.get('args') or []) + list(ins.get('bindings') or [])
+                        if ins['op'] in ('Call', 'Defer', 'Go') and not ins.get('method'):
+                            ops = ops[1:]
+                        for a in ops:
+                            if a['k'] == 'func':
+                                tab.setdefault(a['t'], set()).add(a['n'])
+            self._addrtaken = tab
+        return self._addrtaken
+
+    _addrtaken = None
 
     def instr_writes(self, fn, ins, W, seen):
         op = ins['op']
@@ -755,17 +886,13 @@ class Executor:
             elif callee and callee in self.prog.funcs and not self.prog.funcs[callee].external:
                 W |= self.fn_writes(self.prog.funcs[callee], seen)
             elif callee:
-                W |= lib.static_writes(self, callee, ins)
+                W |= lib.static_writes(self, callee, ins, fn)
             else:
-                # call through a function value: closures created in this function
-                for blk in fn.blocks:
-                    for j in blk['instrs']:
-                        if j['op'] == 'MakeClosure':
-                            f2 = self.prog.funcs.get(j['callee'])
-                            if f2 is not None:
-                                W |= self.fn_writes(f2, seen)
-                # function-typed parameters: unknown => handled by inlining context; mark
-                W.add('?call')
+                # call through a function value: any function of that signature whose address is taken
+                for name in sorted(self.address_taken().get(a0['t'], ())):
+                    f2 = self.prog.funcs.get(name)
+                    if f2 is not None and not f2.external:
+                        W |= self.fn_writes(f2, seen)
 
     def map_heaps(self, mt):
         V = self.m.types[self.m.under(mt)]['elem']
@@ -796,6 +923,15 @@ class Executor:
 
     def i_Alloc(self, st, frame, ins):
         T = self.m.elem(ins['t'])
+        if self.m.kind(T) == 'array':
+            # a local array (e.g. the backing store of variadic arguments): an array object
+            E = self.m.elem(T)
+            arr = self.alloc_ref(st)
+            for (p, s, tk) in self.m.layout(E):
+                name = self.aname(E, p, s)
+                self.written.add(name)
+                st.heaps[name] = z3.Store(st.heap(name), arr, z3.K(self.m.Int, self.m.zero(s)))
+            return Val(ins['t'], [arr], ptr=Ptr('arr', E, '', arr))
         r = self.new_object(st, frame, T)
         return Val(ins['t'], [r], ptr=Ptr('obj', T, '', r))
 
@@ -1047,13 +1183,13 @@ class Executor:
     def i_Extract(self, st, frame, ins):
         x = self.operand(st, frame, ins['args'][0])
         if x.py is not None and isinstance(x.py, list):
-            return x.py[ins['field']]
+            return x.py[ins.get('field', 0)]
         # tuple laid out flat
         elems = self.m.types[x.t]['elems']
         pos = 0
         for i, e in enumerate(elems):
             n = len(self.m.layout(e))
-            if i == ins['field']:
+            if i == ins.get('field', 0):
                 return Val(e, x.leaves[pos:pos + n])
             pos += n
         raise Unsupported('extract')
@@ -1066,7 +1202,7 @@ class Executor:
 
     def i_Field(self, st, frame, ins):
         x = self.operand(st, frame, ins['args'][0])
-        a, b, ft, fname = self.m.field_slice(x.t, ins['field'])
+        a, b, ft, fname = self.m.field_slice(x.t, ins.get('field', 0))
         return Val(ft, x.leaves[a:b])
 
     def i_FieldAddr(self, st, frame, ins):
@@ -1085,6 +1221,13 @@ class Executor:
             self.safety(st, frame, 'index', ins, z3.And(i >= 0, i < ln), 'index out of range')
             E = self.m.elem(x.t)
             return Val(ins['t'], [z3.IntVal(-1)], ptr=Ptr('elem', E, '', arr, off + i))
+        if k == 'pointer' and self.m.kind(self.m.elem(x.t)) == 'array':
+            AT = self.m.elem(x.t)
+            n = self.m.types[self.m.under(AT)].get('len', 0)
+            E = self.m.elem(AT)
+            arr = x.ptr.ref if x.ptr is not None else x.leaves[0]
+            self.safety(st, frame, 'index', ins, z3.And(i >= 0, i < n), 'index out of range')
+            return Val(ins['t'], [z3.IntVal(-1)], ptr=Ptr('elem', E, '', arr, i))
         raise Unsupported('IndexAddr on ' + x.t)
 
     def i_Index(self, st, frame, ins):
@@ -1116,8 +1259,13 @@ class Executor:
             # bounds are against capacity in Go; we only know the length (A2): require hi <= len
             self.safety(st, frame, 'slice', ins, z3.And(0 <= lo_t, lo_t <= hi_t, hi_t <= ln), 'slice bounds out of range')
             return Val(ins['t'], [arr, z3.simplify(off + lo_t), z3.simplify(hi_t - lo_t)])
-        if self.m.kind(x.t) == 'pointer':
-            raise Unsupported('slice of array pointer')
+        if self.m.kind(x.t) == 'pointer' and self.m.kind(self.m.elem(x.t)) == 'array':
+            AT = self.m.elem(x.t)
+            n = self.m.types[self.m.under(AT)].get('len', 0)
+            arr = x.ptr.ref if x.ptr is not None else x.leaves[0]
+            hi_t = self.operand(st, frame, hi).leaves[0] if hi['k'] != 'none' else z3.IntVal(n)
+            self.safety(st, frame, 'slice', ins, z3.And(0 <= lo_t, lo_t <= hi_t, hi_t <= n), 'slice bounds out of range')
+            return Val(ins['t'], [arr, z3.simplify(lo_t), z3.simplify(hi_t - lo_t)])
         raise Unsupported('Slice on ' + x.t)
 
     def i_MakeSlice(self, st, frame, ins):
@@ -1226,7 +1374,41 @@ class Executor:
 
     def i_MakeClosure(self, st, frame, ins):
         binds = [self.operand(st, frame, b) for b in ins.get('bindings') or []]
-        return Val(ins['t'], [z3.IntVal(0)], py=Closure(ins['callee'], binds))
+        c = Closure(ins['callee'], binds)
+        cid = 1000 + len(self.code_ids)
+        self.code_ids[cid] = c
+        return Val(ins['t'], [z3.IntVal(cid)], py=c)
+
+    def func_id(self, name):
+        for k, v in self.code_ids.items():
+            if v == ('func', name):
+                return k
+        cid = 1000 + len(self.code_ids)
+        self.code_ids[cid] = ('func', name)
+        return cid
+
+    def resolve_code(self, st, v):
+        """function value -> Closure or ('func', name), via its code id (which survives trips through memory)"""
+        if v.py is not None:
+            return v.py
+        leaf = z3.simplify(v.leaves[0])
+        if z3.is_int_value(leaf):
+            return self.code_ids.get(leaf.as_long())
+        s = self.prune_solver
+        s.push()
+        try:
+            for t in st.pc:
+                if not has_quant(t):
+                    s.add(t)
+            if s.check() != z3.sat:
+                return None
+            val = s.model().eval(leaf, model_completion=True)
+            s.add(leaf != val)
+            if s.check() != z3.unsat:
+                return None
+        finally:
+            s.pop()
+        return self.code_ids.get(val.as_long()) if z3.is_int_value(val) else None
 
     def i_Range(self, st, frame, ins):
         x = self.operand(st, frame, ins['args'][0])
@@ -1271,11 +1453,12 @@ class Executor:
             callee = ins.get('callee')
             if callee is None:
                 fv = self.operand(st, frame, a0)
-                if isinstance(fv.py, Closure):
-                    f2 = self.prog.funcs[fv.py.fn]
-                    return self.inline(st, frame, ins, f2, args, fv.py.bindings, cont)
-                if isinstance(fv.py, tuple) and fv.py[0] == 'func':
-                    callee = fv.py[1]
+                code = self.resolve_code(st, fv)
+                if isinstance(code, Closure):
+                    f2 = self.prog.funcs[code.fn]
+                    return self.inline(st, frame, ins, f2, args, code.bindings, cont)
+                if isinstance(code, tuple) and code[0] == 'func':
+                    callee = code[1]
                 else:
                     raise Unsupported('call through unknown function value in %s (line %s)' % (frame.fn.name, ins.get('line')))
             return self.call_static(st, frame, ins, callee, args, cont)
@@ -1336,8 +1519,7 @@ class Executor:
         args = [self.materialize(st, frame, a) for a in args]
         for p, a in zip(f2.params, args):
             callee_frame.params[p['n']] = a
-        pre = st.fork()
-        env = self.spec.env_for(callee_frame, pre, pre, None)
+        env = self.spec.env_for(callee_frame, st, st, None)
         for cl in c.lets:
             env.vars[cl.label] = self.spec.eval(cl.ast, env)
         lets = dict(env.vars)
@@ -1363,9 +1545,12 @@ class Executor:
             W0 = [n for n in self.fn_writes(f2) if not n.startswith('?')]
             if W0:
                 self.notes.append('callee %s has no modifies clause; caller frame not checked across it' % self.short(f2))
+        pre = st.fork()
         W = self.fn_writes(f2)
         if any(n.startswith('?') for n in W):
-            self.notes.append('callee %s: imprecise write set %s' % (self.short(f2), sorted(n for n in W if n.startswith('?'))))
+            note = 'callee %s: imprecise write set %s' % (self.short(f2), sorted(n for n in W if n.startswith('?')))
+            if note not in self.notes:
+                self.notes.append(note)
         entry_alloc = st.alloc
         for name in sorted(W):
             if name.startswith('?'):
@@ -1384,6 +1569,10 @@ class Executor:
             results.append(v)
         env2 = self.spec.env_for(callee_frame, st, pre, results)
         env2.vars.update({k2: v2 for k2, v2 in lets.items() if k2 not in env2.vars})
+        if 'functional' in c.flags:
+            # the function is deterministic and reads only its declared inputs (checked by the effect
+            # scan): its results are by definition the spec functions of its arguments
+            self.assume_functional(st, f2, callee_frame, pre, results)
         for cl in c.ensures:
             st.assume(self.spec.eval_bool(cl.ast, env2))
         if 'trusted' in c.flags:
@@ -1395,6 +1584,20 @@ class Executor:
         else:
             res = self.tuple_val(ins.get('t') or 'tuple', results)
         cont(st, frame, res)
+
+    def assume_functional(self, st, f2, callee_frame, pre, results):
+        from . import specfuns
+        env = self.spec.env_for(callee_frame, pre, pre, None)
+        if f2.short == 'evaluateExpr':
+            stp = callee_frame.params['st']
+            e = callee_frame.params['expr']
+            v = specfuns.sf_evalOf(self.spec, env, [stp, e])
+            er = specfuns.sf_evalErr(self.spec, env, [stp, e])
+            st.assume(results[0].leaves[0] == v.leaves[0])
+            st.assume(results[1].leaves[0] == er.leaves[0])
+            self.trusted.add('functional: evaluateExpr is a deterministic function of the expression and st.ParsedVars (effect scan)')
+        else:
+            raise Unsupported('functional contract on %s' % f2.name)
 
     def materialize(self, st, frame, a):
         """an interior pointer passed to a contract call: copy-in (documented approximation)"""
@@ -1422,7 +1625,11 @@ class Executor:
             tab = self.prog.methods.get(c) or {}
             if method in tab and m.implements(c, recv.t):
                 targets.append((c, tab[method]))
-        done = False
+        outcomes = []
+
+        def collect(st3, fr3, res):
+            outcomes.append((st3, fr3, res))
+        base_len = len(st.pc)
         for (c, fname) in targets:
             cond = m.any_is(c, a)
             if not self.feasible(st, cond):
@@ -1432,8 +1639,12 @@ class Executor:
             rv = Val(c, m.any_get(c, a))
             self.assume_refs(st2, rv)
             fr2 = frame.copy()
-            self.call_static(st2, fr2, ins, fname, [rv] + args, cont)
-            done = True
+            if fname in self.inline_stack:
+                # an interface embedded in one of its own implementers: cut the recursion
+                res = lib.opaque_result(self, st2, ins, 'recursive dispatch %s' % fname.rsplit('/', 1)[-1])
+                outcomes.append((st2, fr2, res))
+                continue
+            self.call_static(st2, fr2, ins, fname, [rv] + args, collect)
         # dynamic types outside the module
         alts = [m.any_is(c, a) for (c, _) in targets]
         rest = z3.Not(z3.Or(*alts)) if alts else z3.BoolVal(True)
@@ -1441,7 +1652,55 @@ class Executor:
             st3 = st.fork()
             st3.assume(rest)
             res = lib.opaque_result(self, st3, ins, 'invoke:%s.%s' % (recv.t.rsplit('/', 1)[-1], method))
-            cont(st3, frame.copy(), res)
+            outcomes.append((st3, frame.copy(), res))
+        merged = self.merge_outcomes(st, frame, outcomes, base_len)
+        if merged is not None:
+            st4, res = merged
+            return cont(st4, frame, res)
+        for (st3, fr3, res) in outcomes:
+            cont(st3, fr3, res)
+
+    def merge_outcomes(self, st, frame, outcomes, base_len):
+        """if every outcome left memory untouched, join them into one state (results as ite)"""
+        if len(outcomes) <= 1:
+            return None
+        for (st3, fr3, res) in outcomes:
+            if not st3.alloc.eq(st.alloc):
+                return None
+            for k, v in st3.heaps.items():
+                v0 = st.heaps.get(k)
+                if v0 is None:
+                    v0 = self._base.get(k if st.gen == 0 else (k, st.gen))
+                if v0 is None or not v.eq(v0):
+                    return None
+            if res is not None and (res.ptr is not None or (res.py is not None and not isinstance(res.py, list))):
+                return None
+        sels = []
+        for (st3, fr3, res) in outcomes:
+            extra = st3.pc[base_len:]
+            sels.append(z3.And(*extra) if len(extra) != 1 else extra[0]) if extra else sels.append(z3.BoolVal(True))
+        st4 = st.fork()
+        st4.assume(z3.Or(*sels))
+        r0 = outcomes[-1][2]
+        if r0 is None:
+            return st4, None
+        leaves = list(r0.leaves)
+        for (st3, fr3, res), sel in list(zip(outcomes, sels))[-2::-1]:
+            if res is None or len(res.leaves) != len(leaves):
+                return None
+            leaves = [z3.If(sel, a, b) for a, b in zip(res.leaves, leaves)]
+        if isinstance(r0.py, list):
+            return st4, self.tuple_val(r0.t, self.split_tuple(r0.t, leaves))
+        return st4, Val(r0.t, leaves)
+
+    def split_tuple(self, t, leaves):
+        out = []
+        pos = 0
+        for e in self.m.types[t]['elems']:
+            n = len(self.m.layout(e))
+            out.append(Val(e, leaves[pos:pos + n]))
+            pos += n
+        return out
 
     inline_stack = []
     closure_cells = {}
@@ -1488,17 +1747,38 @@ class Executor:
     events = []
 
 
+_HQ = {}
+_HQ_KEEP = []
+
+
 def has_quant(t):
-    """does the term contain a quantifier (cheap syntactic walk with cache)"""
+    """does the term contain a forall/exists (lambdas do not count); cached per term"""
+    tid = t.get_id()
+    r = _HQ.get(tid)
+    if r is not None:
+        return r
     seen = set()
     stack = [t]
+    res = False
     while stack:
         x = stack.pop()
         i = x.get_id()
         if i in seen:
             continue
         seen.add(i)
+        c = _HQ.get(i)
+        if c is True:
+            res = True
+            break
+        if c is False:
+            continue
         if z3.is_quantifier(x):
-            return True
+            if x.is_lambda():
+                stack.append(x.body())
+                continue
+            res = True
+            break
         stack.extend(x.children())
-    return False
+    _HQ[tid] = res
+    _HQ_KEEP.append(t)
+    return res
